@@ -428,3 +428,131 @@ mut("c16-quiet-defer-unlock", ["C16"], [(LRU, '''	c.mtx.Lock()
 	c.mtx.Unlock()
 ''', '''	c.cache.Store(key, el)
 ''')], [])
+
+# ---- C07 / C08 ----
+ST = "headerfs/store.go"
+mut("c07-no-compensation", ["C07"], [(ST, '''		syncErr := h.file.Sync()
+
+		headersToRollback := len(hdrs)
+		truncateErr := h.truncateHeaders(
+			uint32(headersToRollback), h.indexType,
+		)
+		if truncateErr != nil {
+			return fmt.Errorf("failed to rollback block headers "+
+				"from binary file to previous valid state: "+
+				"%v, error writing to database: %v, headers "+
+				"to rollback: %d", truncateErr, err,
+				headersToRollback)
+		}
+		if syncErr != nil {''', '''		syncErr := h.file.Sync()
+		if syncErr != nil {''')], ["C07.O1"])
+mut("c07-sync-early-return", ["C07"], [(ST, '''		syncErr := f.file.Sync()
+''', '''		syncErr := f.file.Sync()
+		if syncErr != nil {
+			return syncErr
+		}
+''')], ["C07.O1"])
+mut("c07-fetchheader-no-lock", ["C07"], [(ST, '''func (h *blockHeaderStore) FetchHeader(hash *chainhash.Hash) (*wire.BlockHeader, uint32, error) {
+	// Lock store for read.
+	h.mtx.RLock()
+	defer h.mtx.RUnlock()
+''', '''func (h *blockHeaderStore) FetchHeader(hash *chainhash.Hash) (*wire.BlockHeader, uint32, error) {
+''')], ["C07.P1"])
+mut("c07-write-under-rlock", ["C07"], [(ST, '''func (f *filterHeaderStore) WriteHeaders(hdrs ...FilterHeader) error {
+	// Lock store for write.
+	f.mtx.Lock()
+	defer f.mtx.Unlock()''', '''func (f *filterHeaderStore) WriteHeaders(hdrs ...FilterHeader) error {
+	// Lock store for write.
+	f.mtx.RLock()
+	defer f.mtx.RUnlock()''')], ["C07.P1"])
+mut("c07-seek-current", ["C07"], [("headerfs/file.go", "h.file.Seek(0, io.SeekEnd)", "h.file.Seek(0, io.SeekCurrent)")], ["C07.V1"])
+mut("c07-wrong-record-size", ["C07"], [("headerfs/file.go", "seekDistance := uint64(height) * 32", "seekDistance := uint64(height) * 33")], ["C07.T1"])
+mut("c07-rollback-past-genesis", ["C07"], [(ST, '''	if n > chainTipHeight {
+		return nil, fmt.Errorf("cannot roll back %d headers when "+
+			"chain height is %d", n, chainTipHeight)
+	}
+''', '')], ["C07.G1"])
+mut("c08-index-before-file", ["C08"], [(ST, '''	// With all the headers written to the buffer, we'll now write out the
+	// entire batch in a single write call.
+	if err := h.appendRaw(headerBuf.Bytes()); err != nil {
+		return err
+	}
+
+	// Once those are written, we'll then collate all the headers into
+	// headerEntry instances so we can write them all into the index in a
+	// single atomic batch.
+	headerLocs := make([]headerEntry, len(hdrs))
+	for i, header := range hdrs {
+		headerLocs[i] = header.toIndexEntry()
+	}
+''', '''	headerLocs := make([]headerEntry, len(hdrs))
+	for i, header := range hdrs {
+		headerLocs[i] = header.toIndexEntry()
+	}
+	if err := h.addHeaders(headerLocs); err != nil {
+		return err
+	}
+	if err := h.appendRaw(headerBuf.Bytes()); err != nil {
+		return err
+	}
+''')], ["C08.O1"])
+mut("c08-rollback-file-first", ["C08"], [(ST, '''	err = f.truncateIndices(newTip, []*chainhash.Hash{}, false)
+	if err != nil {
+		return nil, err
+	}
+
+	if err := f.truncateHeaders(1, f.indexType); err != nil {
+		return nil, err
+	}
+''', '''	if err := f.truncateHeaders(1, f.indexType); err != nil {
+		return nil, err
+	}
+
+	err = f.truncateIndices(newTip, []*chainhash.Hash{}, false)
+	if err != nil {
+		return nil, err
+	}
+''')], ["C08.O2"])
+mut("c08-no-reconciliation", ["C08"], [(ST, '''	if tipHash.IsEqual(latestFileHeader) {
+		return fhs, nil
+	}
+
+	// Otherwise, we'll need to truncate the file until it matches the
+	// current index tip.
+	err = fhs.truncateHeaders(fileHeight-tipHeight, fhs.indexType)
+	if err != nil {
+		return nil, err
+	}
+''', '''	_, _ = tipHeight, latestFileHeader
+	_ = tipHash
+''')], ["C08.O4"])
+mut("c08-import-filter-first", ["C08"], [("chainimport/headers_import.go", '''	if err := h.options.TargetBlockHeaderStore.WriteHeaders(
+		blockHeaders...,
+	); err != nil {
+		return fmt.Errorf("failed to write block headers "+
+			"batch %d-%d: %w", batchStart, batchEnd, err)
+	}
+''', '''	if err := h.options.TargetFilterHeaderStore.WriteHeaders(
+		filterHeaders...,
+	); err != nil {
+		return err
+	}
+	if err := h.options.TargetBlockHeaderStore.WriteHeaders(
+		blockHeaders...,
+	); err != nil {
+		return fmt.Errorf("failed to write block headers "+
+			"batch %d-%d: %w", batchStart, batchEnd, err)
+	}
+''')], ["C08.O3"])
+mut("c08-import-no-block-rollback", ["C08"], [("chainimport/headers_import.go", '''		_, rollbackErr := blkStore.RollbackBlockHeaders(
+			blockHeadersToTruncate,
+		)''', '''		var rollbackErr error
+		_ = blkStore''')], ["C08.O3"])
+mut("c08-quiet-switch-reconcile", ["C08"], [(ST, '''	if tipHash.IsEqual(&latestBlockHash) {
+		return bhs, nil
+	}
+''', '''	switch {
+	case tipHash.IsEqual(&latestBlockHash):
+		return bhs, nil
+	}
+''')], [])
